@@ -1,30 +1,404 @@
+//! iterworld: worker / driver / replay / shrink for the C19 and C09 simulations.
+
+use simcore::driver;
 use simcore::gen::{gen_world, Profile};
-use simcore::run::execute;
+use simcore::json::{self, J};
+use simcore::run::{execute, Exec, F_EMPTY, F_EMPTY_AT_END, F_EMPTY_MULTIBYTE, F_REPOLL, F_RESUME, F_SIBLING, F_START_BEYOND, F_START_LEN, F_START_MID};
+use simcore::rng::Fnv;
+use simcore::sched::{site, Segment};
+use simcore::shrink::{Shrinker, Target};
+use simcore::stats::Stats;
+use simcore::world::World;
+use std::collections::HashSet;
+use std::io::Write;
 use std::time::Instant;
 
-fn main() {
-    let args: Vec<String> = std::env::args().collect();
-    let n: u64 = args.get(2).and_then(|s| s.parse().ok()).unwrap_or(1000);
-    let profile = if args.get(1).map(|s| s.as_str()) == Some("c09") { Profile::C09 } else { Profile::C19 };
-    let t0 = Instant::now();
-    let mut viols = 0;
-    let mut steps = 0u64;
-    let mut switches = 0u64;
-    let mut same = 0u64;
-    for run in 0..n {
-        let w = gen_world(1, run, profile);
-        let e = execute(&w, None);
-        steps += e.p2.steps;
-        switches += e.p2.sched_stats.switches;
-        same += e.p2.sched_stats.preempt_same_obj;
-        if !e.viols.is_empty() {
-            viols += 1;
-            if viols <= 5 {
-                println!("run {} viol {:?}", run, e.viols[0]);
-                println!("{}", w.to_json(&e.p2.trace).to_pretty());
+fn arg<'a>(args: &'a [String], name: &str) -> Option<&'a str> {
+    args.iter().position(|a| a == name).and_then(|i| args.get(i + 1)).map(|s| s.as_str())
+}
+fn arg_u64(args: &[String], name: &str, d: u64) -> u64 {
+    arg(args, name).and_then(|s| s.parse().ok()).unwrap_or(d)
+}
+
+fn profile_of(prop: &str) -> Profile {
+    if prop == "C09" {
+        Profile::C09
+    } else {
+        Profile::C19
+    }
+}
+
+fn site_name(i: usize) -> Option<&'static str> {
+    Some(match i as u32 {
+        site::BT_INSN => "BT_INSN",
+        site::BT_POP => "BT_POP",
+        site::BT_START => "BT_START",
+        site::LOOK_IN => "LOOK_IN",
+        site::LOOK_OUT => "LOOK_OUT",
+        site::BT_REPORT => "BT_REPORT",
+        site::PK_STEP => "PK_STEP",
+        site::PK_START => "PK_START",
+        site::ITER_NEXT => "ITER_NEXT",
+        site::COMPILE_PARSED => "COMPILE_PARSED",
+        site::COMPILE_OPTIMIZED => "COMPILE_OPTIMIZED",
+        site::COMPILE_EMITTED => "COMPILE_EMITTED",
+        site::PRED_ARBITRARY => "PRED_ARBITRARY",
+        site::PRED_ANCHORED => "PRED_ANCHORED",
+        site::PRED_BYTESET1 => "PRED_BYTESET1",
+        site::PRED_BYTESET2 => "PRED_BYTESET2",
+        site::PRED_BYTESET3 => "PRED_BYTESET3",
+        site::PRED_BYTESEQ => "PRED_BYTESEQ",
+        site::PRED_BRACKET => "PRED_BRACKET",
+        _ => return None,
+    })
+}
+
+/// Fold one executed world into the worker's statistics. Returns the hashes of
+/// distinct non-trivial cases for (C19, C09).
+fn account(st: &mut Stats, w: &World, e: &Exec, c19_set: &mut HashSet<u64>, c09_set: &mut HashSet<u64>) {
+    st.add("evaluations", 1);
+    st.add("ops", w.nops() as u64);
+    st.add(&format!("threads.{}", w.threads.len()), 1);
+    st.add(&format!("strategy.{}", w.knobs.strategy.family()), 1);
+    st.add("simulated_steps", e.p1.steps + e.p2.steps + e.p3.steps);
+    st.add("simulated_steps_pass2", e.p2.steps);
+    let ss = &e.p2.sched_stats;
+    st.add("faults.preempt", ss.preempt);
+    st.add("faults.stall", ss.stall);
+    st.add("sched.switches", ss.switches);
+    st.add("sched.boundary_switch", ss.boundary_switch);
+    st.add("sched.forced_switch", ss.forced_switch);
+    st.add("sched.decision_points", ss.decision_points);
+    st.add("probes.preempt_same_regex_object", ss.preempt_same_obj);
+    st.add("probes.preempt_in_lookaround", ss.preempt_in_lookaround);
+    st.add("probes.preempt_with_nonempty_backtrack_stack", ss.preempt_bts_nonempty);
+    st.add("probes.preempt_in_match_report", ss.preempt_in_report);
+    st.add("probes.preempt_in_compile", ss.preempt_in_compile);
+    st.max("max.inflight_same_regex_object", ss.max_inflight_same_obj);
+    for p in [&e.p1, &e.p2, &e.p3] {
+        st.add("faults.cancel", p.stats.cancel_fired);
+        st.add("faults.fuel", p.stats.fuel_fired);
+        st.add("engine_panics_unclaimed", p.stats.engine_panics);
+        st.add("model_out_of_fuel_steps_skipped", p.stats.model_unknown);
+    }
+    let cs = &e.p2.stats;
+    st.add("faults.resume", cs.resume);
+    st.add("faults.repoll", cs.repoll);
+    st.add("faults.sibling", cs.sibling_steps);
+    st.add("faults.rewrite", cs.rewrite);
+    st.add("faults.clone_race", cs.clone_while_original_midsearch);
+    st.add("ops.clone", cs.clone_ops);
+    st.add("ops.nested_replace", cs.nested);
+    st.add("ops.compile", cs.compile_ops);
+    st.add("ops.next", cs.nexts);
+    st.add("ops.matches", cs.matches);
+    st.add("compile_errors", e.compile_errs);
+    for i in 0..32 {
+        if let Some(n) = site_name(i) {
+            st.add(&format!("sites.{}", n), e.p2.sites[i]);
+        }
+    }
+    st.add("cmp.compared", e.cmp.compared);
+    st.add("cmp.step_count_divergence", e.cmp.step_count_divergence);
+    st.add("cmp.fault_divergence", e.cmp.fault_divergence);
+    st.add("cmp.incomparable_dead", e.cmp.incomparable_dead);
+    st.add("model.calls", e.model.calls);
+    st.add("model.memo_hits", e.model.memo_hits);
+    st.add("model.out_of_fuel", e.model.out_of_fuel);
+    st.add("model.steps", e.model.steps);
+    let dup = w.regexes.iter().any(|r| {
+        let p = &r.pattern;
+        ["x", "y", "n"].iter().any(|n| p.matches(&format!("(?<{}>", n)).count() >= 2)
+    });
+    if dup {
+        st.add("probes.duplicate_named_group_world", 1);
+    }
+
+    // C19 non-trivial: >= 1 context switch taken while >= 2 searches on the same Regex object were in flight
+    if ss.preempt_same_obj >= 1 {
+        st.add("c19.nontrivial", 1);
+        let mut h = Fnv::default();
+        h.u64(w.hash());
+        for (t, n) in &e.p2.trace {
+            h.u64(((*t as u64) << 56) ^ *n);
+        }
+        if c19_set.insert(h.0) && st.samples.len() < 2 {
+            st.samples.push(w.to_json(&e.p2.trace).set("outcomes_pass2", outcomes_json(e)));
+        }
+    }
+    // C09 non-trivial: an iterator history with >= 2 next calls that includes one of
+    // {empty match, repoll, resume, sibling}
+    for (hash, feat, nexts) in &cs.iter_histories {
+        st.add("c09.iterator_histories", 1);
+        if feat & F_EMPTY != 0 {
+            st.add("probes.history_with_empty_match", 1);
+        }
+        if feat & F_EMPTY_MULTIBYTE != 0 {
+            st.add("probes.empty_match_before_multibyte_char", 1);
+        }
+        if feat & F_EMPTY_AT_END != 0 {
+            st.add("probes.empty_match_at_end", 1);
+        }
+        if feat & F_START_LEN != 0 {
+            st.add("probes.start_eq_len", 1);
+        }
+        if feat & F_START_BEYOND != 0 {
+            st.add("probes.start_beyond_len", 1);
+        }
+        if feat & F_START_MID != 0 {
+            st.add("probes.start_mid", 1);
+        }
+        if feat & F_REPOLL != 0 {
+            st.add("probes.history_with_repoll", 1);
+        }
+        if feat & F_RESUME != 0 {
+            st.add("probes.history_with_resume", 1);
+        }
+        if feat & F_SIBLING != 0 {
+            st.add("probes.history_with_sibling", 1);
+        }
+        if *nexts >= 2 && feat & (F_EMPTY | F_REPOLL | F_RESUME | F_SIBLING) != 0 {
+            st.add("c09.nontrivial", 1);
+            c09_set.insert(*hash ^ ((*feat as u64) << 40));
+        }
+    }
+}
+
+fn outcomes_json(e: &Exec) -> J {
+    J::Arr(e.p2.recs.iter().map(|t| J::Arr(t.iter().map(|r| J::s(&r.outcome)).collect())).collect())
+}
+
+fn history_json(e: &Exec) -> J {
+    let mut a = Vec::new();
+    for (pn, p) in [(1, &e.p1), (2, &e.p2), (3, &e.p3)] {
+        for (t, recs) in p.recs.iter().enumerate() {
+            for (i, r) in recs.iter().enumerate() {
+                a.push(J::s(&format!("pass{} t{} op{} steps={} -> {}", pn, t, i, r.steps, r.outcome)));
             }
         }
     }
-    let dt = t0.elapsed().as_secs_f64();
-    println!("{} worlds in {:.2}s = {:.0}/s; viols {}; steps {} switches {} same_obj {}", n, dt, n as f64 / dt, viols, steps, switches, same);
+    J::Arr(a)
+}
+
+fn violation_file(w: &World, e: &Exec, v: &simcore::run::Violation, seed: u64, run: u64, prop_profile: &str) -> J {
+    let mut j = J::obj()
+        .set("format", J::u(1))
+        .set("property", J::s(v.property))
+        .set("clause", J::s(&v.clause))
+        .set("seed", J::u(seed))
+        .set("run", J::u(run))
+        .set("profile", J::s(prop_profile));
+    if let J::Obj(o) = w.to_json(&e.p2.trace) {
+        for (k, val) in o {
+            j.put(&k, val);
+        }
+    }
+    j.put("expected", J::obj().set("pass", J::u(1)).set("t", J::u(v.thread as u64)).set("op", J::u(v.op as u64)).set("outcome", J::s(&v.expected)));
+    j.put("observed", J::obj().set("pass", J::u(v.pass as u64)).set("t", J::u(v.thread as u64)).set("op", J::u(v.op as u64)).set("outcome", J::s(&v.observed)));
+    j.put("history", history_json(e));
+    j
+}
+
+fn cmd_worker(args: &[String]) -> i32 {
+    let prop = arg(args, "--prop").unwrap_or("C19").to_string();
+    let seed = arg_u64(args, "--seed", 1);
+    let first = arg_u64(args, "--first-override", arg_u64(args, "--first", 0));
+    let stride = arg_u64(args, "--stride", 1);
+    let count = arg_u64(args, "--count", 1000);
+    let budget_ms = arg_u64(args, "--budget-ms", 20_000);
+    let out = arg(args, "--out").unwrap_or("/verif/work/w").to_string();
+    let cpu = arg(args, "--cpu").and_then(|s| s.parse::<usize>().ok());
+    let max_viol = arg_u64(args, "--max-viol", 4);
+    let evlog = args.iter().any(|a| a == "--evlog");
+    if let Some(c) = cpu {
+        driver::pin_to_cpu(c);
+    }
+    if args.iter().any(|a| a == "--only-pass1") {
+        simcore::run::ONLY_PASS1.store(true, std::sync::atomic::Ordering::Relaxed);
+    }
+    let profile = profile_of(&prop);
+    let t0 = Instant::now();
+    let mut st = Stats::default();
+    let mut c19_set = HashSet::new();
+    let mut c09_set = HashSet::new();
+    let mut progress = std::fs::File::create(format!("{}.progress", out)).expect("progress file");
+    let mut evout = if evlog { Some(std::io::BufWriter::new(std::fs::File::create(format!("{}.evlog", out)).expect("evlog"))) } else { None };
+    let mut nviol = 0u64;
+    let mut j = 0u64;
+    while j < count {
+        if j % 64 == 0 && t0.elapsed().as_millis() as u64 > budget_ms {
+            break;
+        }
+        let run = first + j * stride;
+        {
+            use std::io::Seek;
+            let _ = progress.seek(std::io::SeekFrom::Start(0));
+            let _ = write!(progress, "{:>20}\n", run);
+        }
+        let w = gen_world(seed, run, profile);
+        let e = execute(&w, None);
+        account(&mut st, &w, &e, &mut c19_set, &mut c09_set);
+        if let Some(o) = evout.as_mut() {
+            let _ = writeln!(o, "{} {:016x}", run, e.ev);
+        }
+        for v in &e.viols {
+            st.add(&format!("violations.{}", v.property), 1);
+        }
+        // one file per (world, property): the first violation of each property
+        for p in ["C19", "C09"] {
+            if let Some(v) = e.viols.iter().find(|v| v.property == p) {
+                if nviol < max_viol || p == prop {
+                    let f = violation_file(&w, &e, v, seed, run, &prop);
+                    let _ = std::fs::write(format!("{}.viol-{}-{}.json", out, p, run), f.to_pretty());
+                    nviol += 1;
+                }
+            }
+        }
+        j += 1;
+        if e.viols.iter().any(|v| v.property == prop) && st.get(&format!("violations.{}", prop)) >= max_viol {
+            break;
+        }
+    }
+    st.add("worlds_requested", count);
+    st.add("wall_ms", t0.elapsed().as_millis() as u64);
+    st.add("c19.distinct_nontrivial_local", c19_set.len() as u64);
+    st.add("c09.distinct_nontrivial_local", c09_set.len() as u64);
+    let mut hb: Vec<u8> = Vec::with_capacity((c19_set.len() + c09_set.len()) * 9);
+    for h in &c19_set {
+        hb.push(19);
+        hb.extend_from_slice(&h.to_le_bytes());
+    }
+    for h in &c09_set {
+        hb.push(9);
+        hb.extend_from_slice(&h.to_le_bytes());
+    }
+    std::fs::write(format!("{}.hashes", out), hb).expect("write hashes");
+    std::fs::write(format!("{}.stats.json", out), st.to_json().to_string()).expect("write stats");
+    if let Some(mut o) = evout {
+        let _ = o.flush();
+    }
+    0
+}
+
+fn load_replay(path: &str) -> Result<(J, World, Vec<Segment>), String> {
+    let text = std::fs::read_to_string(path).map_err(|e| format!("{}: {}", path, e))?;
+    let j = json::parse(&text)?;
+    let (w, s) = World::from_json(&j)?;
+    Ok((j, w, s))
+}
+
+/// Replay a file in this (fresh) process: exit 1 iff the recorded (property, clause) reproduces.
+fn cmd_replay(args: &[String]) -> i32 {
+    let path = match args.get(2) {
+        Some(p) => p,
+        None => {
+            eprintln!("usage: iterworld replay <file>");
+            return 2;
+        }
+    };
+    let (j, w, s) = match load_replay(path) {
+        Ok(x) => x,
+        Err(e) => {
+            eprintln!("HARNESS-ERROR: cannot load replay: {}", e);
+            return 2;
+        }
+    };
+    if let Some(c) = arg(args, "--cpu").and_then(|s| s.parse::<usize>().ok()) {
+        driver::pin_to_cpu(c);
+    } else {
+        driver::pin_to_cpu(0);
+    }
+    let prop = j.get("property").and_then(|v| v.as_str()).unwrap_or("").to_string();
+    let clause = j.get("clause").and_then(|v| v.as_str()).unwrap_or("").to_string();
+    let e = execute(&w, Some(&s));
+    let verbose = !args.iter().any(|a| a == "--quiet");
+    let hit: Vec<_> = e.viols.iter().filter(|v| v.property == prop && v.clause == clause).collect();
+    if verbose {
+        println!("replay {}: property={} clause={} threads={} ops={} schedule_segments={}", path, prop, clause, w.threads.len(), w.nops(), s.len());
+        println!("event-hash {:016x}", e.ev);
+        for v in &e.viols {
+            println!("  violation property={} clause={} pass={} t{} op{} expected={} observed={}", v.property, v.clause, v.pass, v.thread, v.op, v.expected, v.observed);
+        }
+    }
+    if hit.is_empty() {
+        if verbose {
+            println!("NOT-REPRODUCED");
+        }
+        0
+    } else {
+        if verbose {
+            println!("REPRODUCED property={} clause={}", prop, clause);
+        }
+        1
+    }
+}
+
+fn cmd_shrink(args: &[String]) -> i32 {
+    let (inp, outp) = match (args.get(2), args.get(3)) {
+        (Some(a), Some(b)) => (a, b),
+        _ => {
+            eprintln!("usage: iterworld shrink <in> <out>");
+            return 2;
+        }
+    };
+    driver::pin_to_cpu(arg(args, "--cpu").and_then(|s| s.parse::<usize>().ok()).unwrap_or(0));
+    let (j, w, s) = match load_replay(inp) {
+        Ok(x) => x,
+        Err(e) => {
+            eprintln!("HARNESS-ERROR: {}", e);
+            return 2;
+        }
+    };
+    let prop = j.get("property").and_then(|v| v.as_str()).unwrap_or("").to_string();
+    let clause = j.get("clause").and_then(|v| v.as_str()).unwrap_or("").to_string();
+    let mut sh = Shrinker { target: Target { property: prop.clone(), clause: clause.clone() }, evals: 0, max_evals: arg_u64(args, "--max-evals", 3000) as u32 };
+    if !sh.fails(&w, &s) {
+        println!("shrink: input does not reproduce in-process");
+        return 3;
+    }
+    let (mw, ms) = sh.shrink(w, s);
+    // final record
+    let e = execute(&mw, Some(&ms));
+    let v = match e.viols.iter().find(|v| v.property == prop && v.clause == clause) {
+        Some(v) => v.clone(),
+        None => {
+            println!("shrink: minimised world lost the violation");
+            return 3;
+        }
+    };
+    let mut f = violation_file(&mw, &e, &v, j.get("seed").and_then(|v| v.as_u64()).unwrap_or(0), j.get("run").and_then(|v| v.as_u64()).unwrap_or(0), j.get("profile").and_then(|v| v.as_str()).unwrap_or(""));
+    f.put("minimised", J::Bool(true));
+    f.put("shrink_evaluations", J::u(sh.evals as u64));
+    // the explicit schedule actually used (not the re-recorded trace) is what replays
+    f.put("schedule", simcore::world::schedule_to_json(&ms));
+    if std::fs::write(outp, f.to_pretty()).is_err() {
+        return 2;
+    }
+    println!("shrink: {} evaluations; threads={} ops={} segments={}", sh.evals, mw.threads.len(), mw.nops(), ms.len());
+    0
+}
+
+fn cmd_gen(args: &[String]) -> i32 {
+    let prop = arg(args, "--prop").unwrap_or("C19");
+    let w = gen_world(arg_u64(args, "--seed", 1), arg_u64(args, "--run", 0), profile_of(prop));
+    let e = execute(&w, None);
+    println!("{}", w.to_json(&e.p2.trace).set("outcomes_pass2", outcomes_json(&e)).to_pretty());
+    0
+}
+
+fn main() {
+    let args: Vec<String> = std::env::args().collect();
+    let code = match args.get(1).map(|s| s.as_str()) {
+        Some("worker") => cmd_worker(&args),
+        Some("replay") => cmd_replay(&args),
+        Some("shrink") => cmd_shrink(&args),
+        Some("gen") => cmd_gen(&args),
+        Some("drive") => driver::cmd_drive(&args),
+        Some("selftest-determinism") => driver::cmd_selftest_determinism(&args),
+        _ => {
+            eprintln!("usage: iterworld <worker|drive|replay|shrink|gen|selftest-determinism> ...");
+            2
+        }
+    };
+    std::process::exit(code);
 }
